@@ -1,6 +1,6 @@
 /-
-  C08 — placeholder property file: the protocol model and its theorems are being added (see DESIGN.md
-  section 6); until then the property is decided by the oracles of the harness client on explored schedules.
+  C08 — exactness of the history checker used by tie H.
+  The algorithm-level theorems (SegmentedQueue machine, every schedule) are in Props/C08Segmented.lean.
 -/
 import CdsVerif.Base.Spec
 namespace CdsVerif.Props.C08
